@@ -1146,7 +1146,9 @@ class PseudoNetCDFFile(PseudoNetCDFSelfReg, object):
                 vals = np.ma.masked_less_equal(vals, less_equal)
 
             if values is not None:
+                premask = np.ma.getmaskarray(vals)
                 vals = np.ma.masked_values(vals, values)
+                vals = np.ma.masked_where(premask, vals)
 
             if equal is not None:
                 vals = np.ma.masked_equal(vals, equal)
